@@ -311,3 +311,100 @@ Proof.
                 (assemble_counted_are_present H1 H256 B HB dsize fm dest jobs J f R D)).
 Qed.
 Print Assumptions C13_batch.
+
+(* ---------------------------------------------------------------------------------------------- *)
+(* the whole command with the METAFILE as the only description of the torrent, and the composition  *)
+(* with the creators (rebuild_of_metafile: see Props/C14.v)                                          *)
+(* ---------------------------------------------------------------------------------------------- *)
+From TF Require Model.Creators Proofs.CreatorsProofs2.
+From TF Require Import Proofs.RebuildEndToEnd.
+
+(* v2 / hybrid, full: an accepted v2 metafile (piece length B * 2^k), nothing but directories on the way, no place under another
+   place or used twice: the command returns and every entry for which an indexed candidate verifies has a verified file at
+   dest/<components> -- exactly the bytes d if all verifying candidates carry d *)
+Theorem C13_rebuild_of_metafile_restores : forall (H1 H256 : bytes -> bytes) B, 0 < B ->
+  forall (dsize : nat) (dest : path) (fm : filemap) (meta : value) (x : extracted) k pl (f : fs),
+  metadata_init meta = Some x -> x_is_v2 x = true -> pl_of (x_piece_length x) = Some pl -> pl = B * 2 ^ k ->
+  filemap_reflects f fm -> dest_disjoint dest fm ->
+  way_free dest (x_files x) f -> entries_consistent (x_files x) ->
+  (forall e e', In e (x_files x) -> In e' (x_files x) -> e_full e' = e_full e -> e' = e) ->
+  exists g, rebuild_of_metafile H1 H256 B dsize dest fm meta f = Some (Ok g) /\
+  forall e, In e (x_files x) ->
+    (exists c, indexed fm (text (e_filename e)) c /\ verified H256 B e c) ->
+    (f (target dest e) = None \/
+     exists old, f (target dest e) = Some (File old) /\ (Z.of_nat (length old) < e_length e)%Z) ->
+    (exists l data, indexed fm (text (e_filename e)) (l, data) /\ verified H256 B e (l, data) /\
+                    g (target dest e) = Some (File data)) /\
+    (forall d, (forall c, indexed fm (text (e_filename e)) c -> verified H256 B e c -> snd c = d) ->
+               g (target dest e) = Some (File d)).
+Proof. exact rebuild_of_metafile_restores_v2. Qed.
+Print Assumptions C13_rebuild_of_metafile_restores.
+
+(* v1, `_partial` (candidates_clean_run, D27): an accepted v1 metafile whose `pieces` are the H1 digests (20 bytes each) of the
+   BEP 3 pieces of the files `trues` and whose lengths are theirs *)
+Theorem C13_rebuild_of_metafile_restores_v1_partial : forall (H1 H256 : bytes -> bytes) B (dsize : nat) (dest : path)
+    (fm : filemap) (meta : value) (x : extracted) pl (s : bytes) (trues : list bytes) (f : fs),
+  metadata_init meta = Some x -> x_is_v2 x = false -> pl_of (x_piece_length x) = Some pl -> x_pieces x = BStr s ->
+  Forall (fun e => (0 <= e_length e)%Z) (x_files x) ->
+  let files := map vfile_of (x_files x) in
+  (forall y, length (H1 y) = 20) -> chunks 20 s = map H1 (chunks pl (concat trues)) ->
+  map (@length ascii) trues = map vf_length files ->
+  filemap_reflects f fm -> dest_disjoint dest fm ->
+  intact_copies fm files trues -> candidates_clean_run H1 fm pl files trues -> files_ok files -> v1_way_free dest files f ->
+  exists g, rebuild_of_metafile H1 H256 B dsize dest fm meta f = Some (Ok g) /\
+  forall j, j < length files ->
+    let file := nth j files (mk_v1_file String.EmptyString String.EmptyString 0) in
+    0 < vf_length file ->
+    (f (dest ++ parts_of (vf_full file)) = None \/
+     exists old, f (dest ++ parts_of (vf_full file)) = Some (File old) /\ length old < vf_length file) ->
+    g (dest ++ parts_of (vf_full file)) = Some (File (nth j trues [])).
+Proof. exact rebuild_of_metafile_restores_v1_partial. Qed.
+Print Assumptions C13_rebuild_of_metafile_restores_v1_partial.
+
+(* ... where files_ok follows from the entries, and candidates_clean_run from the per-piece candidates_clean (above) of every
+   recorded piece when no two listed files share a path *)
+Theorem C13_files_ok_of_entries : forall es : list entry, Forall entry_valid es -> entries_consistent es ->
+  (forall e e', In e es -> In e' es -> e_full e' = e_full e -> e' = e) -> NoDup es -> files_ok (map vfile_of es).
+Proof. exact files_ok_of_entries. Qed.
+Print Assumptions C13_files_ok_of_entries.
+
+Theorem C13_candidates_clean_run_of_pieces : forall (H1 : bytes -> bytes) (fm : filemap) pl, 0 < pl ->
+  forall (files : list v1_file) (trues : list bytes), map (@length ascii) trues = map vf_length files ->
+  pieces_clean H1 fm pl files trues -> files_ok files -> candidates_clean_run H1 fm pl files trues.
+Proof. exact candidates_clean_run_of_pieces. Qed.
+Print Assumptions C13_candidates_clean_run_of_pieces.
+
+(* COMPOSITION with the creators.  A metafile written by any of the four v2-capable creators (v2 and hybrid, class based and
+   assembler) for a directory payload; every name passes _check_parts; the payload is not "one file named like the torrent"
+   (BEP 52 file trees cannot tell that from the single-file form; Metadata.extract reads it as a single file); an intact copy of
+   every non-empty file is indexed under its name and whatever else is indexed under that name with that size is the file; the
+   destination is fresh.  Then rebuild returns and every NON-EMPTY file of the tree is at dest/name/<path> with its bytes
+   (zero-length files are never placed by the v2 route: C13_v2_empty_file_not_placed). *)
+Theorem C13_own_metafiles_rebuild_v2 : forall (H1 H256 : bytes -> bytes) B, 0 < B -> forall k pl, pl = B * 2 ^ k ->
+  forall (o : Creators.options) (name : bytes) (es : list (bytes * Creators.node)) (m : value)
+         (dsize : nat) (dest : path) (fm : filemap) (f : fs),
+  Creators.wf_node (Creators.Dir es) -> names_safe (Creators.Dir es) -> safe name -> not_single name es ->
+  CreatorsProofs2.v2_capable_output H1 H256 B pl o name (Creators.Dir es) m ->
+  filemap_reflects f fm -> dest_disjoint dest fm -> dest_fresh f dest ->
+  own_intact fm name (Creators.Dir es) -> own_clean fm name (Creators.Dir es) ->
+  exists g, rebuild_of_metafile H1 H256 B dsize dest fm m f = Some (Ok g) /\
+  forall p d, In (p, d) (Creators.files_of [] (Creators.Dir es)) -> d <> [] ->
+              g (dest ++ map text (name :: p)) = Some (File d).
+Proof. exact own_metafiles_rebuild_v2. Qed.
+Print Assumptions C13_own_metafiles_rebuild_v2.
+
+(* the v1 creator (no --align, directory payload).  `_partial`: own_clean stands in for candidates_clean_run (which it implies);
+   an intact copy of EVERY file must be indexed, the empty ones too; --align and single-file payloads are not covered *)
+Theorem C13_own_metafiles_rebuild_v1_partial : forall (H1 H256 : bytes -> bytes) B, (forall x, length (H1 x) = 20) ->
+  forall (o : Creators.options) (rootstr name : bytes) pl (es : list (bytes * Creators.node))
+         (dsize : nat) (dest : path) (fm : filemap) (f : fs),
+  0 < pl -> Creators.wf_node (Creators.Dir es) -> Creators.has_file (Creators.Dir es) ->
+  names_safe (Creators.Dir es) -> safe name ->
+  filemap_reflects f fm -> dest_disjoint dest fm -> dest_fresh f dest ->
+  own_intact_all fm name (Creators.Dir es) -> own_clean fm name (Creators.Dir es) ->
+  exists g, rebuild_of_metafile H1 H256 B dsize dest fm
+              (Creators.create_v1 H1 false o rootstr name pl (Creators.Dir es)) f = Some (Ok g) /\
+  forall p d, In (p, d) (Creators.files_of [] (Creators.Dir es)) -> d <> [] ->
+              g (dest ++ map text (name :: p)) = Some (File d).
+Proof. exact own_metafiles_rebuild_v1_partial. Qed.
+Print Assumptions C13_own_metafiles_rebuild_v1_partial.
